@@ -115,6 +115,15 @@ func (c14) Build(tier string, seed uint64) []any {
 			cs = append(cs, &imgCase{Gen: "reset", W: 90 + r.Intn(40), H: 70 + r.Intn(40), C: c, P: p, Sel: gen.Pick(r, 0, 0, 2), Class: gen.Pick(r, "noise", "smooth", "lowent"), CSeed: r.U64()})
 		}
 	}
+	for j, g := range areaSizes(tier == "thorough", seed) {
+		for i, pn := range [][2]int{{8, 0}, {12, 0}, {16, 0}, {8, 2}} {
+			if tier != "thorough" && (j+i+int(seed))%2 == 0 {
+				continue
+			}
+			r := gen.Sub(seed, "C14", "area", j*10+i)
+			cs = append(cs, &imgCase{Gen: "area", W: g[0], H: g[1], C: gen.Pick(r, 1, 3), P: pn[0], Sel: pn[1], Class: gen.Pick(r, "noise", "smooth", "runs"), Aux: 1, CSeed: r.U64()})
+		}
+	}
 	return cs
 }
 
